@@ -119,7 +119,35 @@ def family():
                 dict(simple(views=[("r", 2)], par=True), **nh3), dict(simple(views=[("or", 0)]), **nh3)])
     out.append([dict(simple(views=[("m", 0)]), ft="filter::Has<C1>", ftoks=["has1"]),
                 dict(simple(views=[("m", 0)]), ft="filter::Not<filter::Has<C1>>", ftoks=["not", "has1"]), simple(views=[("r", 2)])])
-    while len(out) < 51:
+    # --- schedules aimed at the run-time claim bookkeeping of stage.rs ------------------------------
+    # (run-time claim bookkeeping: which claims are recorded per table / resource while a stage runs,
+    #  what happens to them when an add-on candidate is turned down, and what a stage that has
+    #  already run as add-ons passes on)
+    def flt(t, ft, ftoks):
+        return dict(t, ft=ft, ftoks=ftoks)
+    H = lambda c: (f"filter::Has<C{c}>", [f"has{c}"])
+    NH = lambda c: (f"filter::Not<filter::Has<C{c}>>", ["not", f"has{c}"])
+    NEVER = ("filter::And<filter::Has<C0>, filter::Not<filter::Has<C0>>>", ["and", "has0", "not", "has0"])
+    # a candidate turned down after merging compatibly into a running task's table; a later
+    # candidate clashes with that running task on exactly that table
+    out.append([simple(views=[("m", 0)]), flt(simple(views=[("m", 2)]), *H(1)), simple(views=[("r", 2)]), simple(views=[("r", 0)])])
+    out.append([simple(views=[("m", 1)]), flt(simple(views=[("m", 3)]), *H(0)), simple(views=[("r", 3)]), simple(views=[("or", 1)], par=True)])
+    out.append([simple(views=[("m", 0)], par=True), flt(simple(views=[("om", 2)]), *H(3)), simple(views=[("id", None)], entry=[("r", 2)]), simple(views=[("id", None)], entry=[("r", 0)])])
+    # candidates turned down / accepted in every order
+    out.append([flt(simple(views=[("m", 0)]), *H(3)), simple(views=[("r", 0)]), flt(simple(views=[("r", 0)]), *NH(3))])
+    out.append([flt(simple(views=[("m", 0)]), *H(3)), flt(simple(views=[("r", 0)]), *NH(3)), simple(views=[("r", 0)]), flt(simple(views=[("or", 0)]), *NH(3))])
+    # a middle stage that is started early as a whole; the stage after it holds independent tasks
+    out.append([simple(views=[("m", 0), ("m", 1)]), simple(views=[("m", 0), ("m", 2)]), simple(views=[("m", 2)]), simple(views=[("m", 3)])])
+    out.append([flt(simple(views=[("m", 0)]), *H(1)), flt(simple(views=[("m", 0)]), *NH(1)), simple(views=[("r", 0)]), simple(views=[("m", 3)])])
+    out.append([flt(simple(views=[("m", 0)]), *H(3)), flt(simple(views=[("m", 0)]), *NH(3)), flt(simple(views=[("m", 0)]), *H(2)), simple(views=[("r", 1)])])
+    # a task that views a resource and matches no table (or has no views at all), before / after a
+    # stage mate that borrows tables; the next stage conflicts through the resource only
+    out.append([flt(simple(views=[("r", 3)], res=[(0, True)]), *NEVER), simple(views=[("m", 0)]), simple(views=[("r", 1)], res=[(0, False)])])
+    out.append([simple(views=[("m", 0)]), flt(simple(views=[("r", 3)], res=[(0, True)]), *NEVER), simple(views=[("r", 1)], res=[(0, False)])])
+    out.append([simple(res=[(1, True)]), simple(views=[("m", 2)]), simple(views=[("r", 3)], res=[(1, False)]), simple(views=[("r", 1)], res=[(2, True)])])
+    out.append([simple(views=[("m", 2)]), simple(res=[(1, False)]), simple(views=[("r", 3)], res=[(1, True)])])
+    out.append([flt(simple(views=[("m", 1)], res=[(2, True)]), *NEVER), flt(simple(views=[("m", 0)]), *H(2)), flt(simple(views=[("r", 0)], res=[(2, True)]), *NH(2)), flt(simple(views=[("r", 0)]), *NH(2))])
+    while len(out) < 64:
         k = rnd.randint(2, 4)
         out.append([rand_task(rnd) for _ in range(k)])
     return out
